@@ -442,6 +442,18 @@ def connecting(ctx, P):
             ctx.ob("ActivateBestChain/reselect-after-invalid@L%s" % s.line, "MPT", "after a step that found an invalid block the most-work choice is discarded "
                    "(recomputed by FindMostWorkChain)", bool(resets), s.where)
         ctx.ob("ActivateBestChain/target-provenance@L%s" % s.line, "PROVENANCE", "the chain ActivateBestChain activates is the result of FindMostWorkChain()", ok, s.where, detail)
+        # the retry loop around the step ends (by its condition) only when the new tip IS the most-work candidate
+        if match(["u", "*", ["local", V("m")]], a[1]):
+            m = a[1][2][1]
+            loops = [l for l in s.loops if l.get("k") == "do"]
+            ctx.floor("ActivateBestChain retry loop", len(loops), 1)
+            outer = loops[0]
+            cond = F.to_formula(outer.get("c"), {})
+            eqs = [k for k in F.atoms(cond) if re.fullmatch(r"(\w+ == %s|%s == \w+)" % (m, m), k)]
+            ok2 = len(eqs) == 1 and F.implies(F.mk_not(cond), F.atom(eqs[0]))
+            ctx.ob("ActivateBestChain/loop-until-most-work@L%s" % outer.get("l"), "LOOP", "ActivateBestChain keeps selecting and stepping until the new tip equals the "
+                   "most-work candidate (the loop condition is false only then); in particular a candidate wiped after an invalid block forces another round",
+                   ok2, "%s:%s" % (abc.file, outer.get("l")), {"condition": F.fshow(cond)})
 
 
 # ------------------------------------------------------------------------------------------------- invalidateblock
